@@ -189,6 +189,22 @@ fn dump_one(rt: &Runtime<NoCtx>, path: &str, out_dir: &str) {
         }
         o.push(']');
     }
+    o.push_str("}, \"lir_blocks\": {");
+    let lb = capture::LIR_BLOCKS.lock().unwrap();
+    for (i, (n, blocks)) in lb.iter().enumerate() {
+        if i > 0 { o.push_str(", "); }
+        o.push_str(&format!("{}: [", json_str(n)));
+        for (j, (label, ins)) in blocks.iter().enumerate() {
+            if j > 0 { o.push_str(", "); }
+            o.push_str(&format!("[{}, [", json_str(label)));
+            for (k, x) in ins.iter().enumerate() {
+                if k > 0 { o.push_str(", "); }
+                o.push_str(&json_str(x));
+            }
+            o.push_str("]]");
+        }
+        o.push(']');
+    }
     o.push_str("}, \"data\": {");
     let data = capture::DATA.lock().unwrap();
     for (i, (id, b)) in data.iter().enumerate() {
